@@ -11,6 +11,7 @@ use temporal_rs::{PlainDate, PlainDateTime, PlainTime};
 use tmc_ref::r1::*;
 use tmc_ref::r2::*;
 use tmc_ref::r3::{self, TUnit};
+use tmc_ref::r1::NS_PER_DAY;
 
 fn date_alphabet() -> Vec<Ymd> {
     let mut v = vec![];
